@@ -1,1 +1,9 @@
-//! simnet: in-memory datagram network for end-to-end checks.
+//! simnet: the whole dquic client+server stack over an in-memory datagram
+//! network with a generated fault schedule, on a current-thread tokio runtime
+//! with a paused (virtual) clock.
+
+pub mod net;
+pub mod world;
+
+pub use net::*;
+pub use world::*;
